@@ -770,8 +770,19 @@ class Flow:
                 t_term = _terminates(s.body)
                 f_term = _terminates(s.orelse) if s.orelse else False
                 if t_term != f_term:
-                    self.guards.append((self._last_if_test, not t_term))
+                    self.guards.append((self._if_tests.get(id(s), self._last_if_test), not t_term))
                     pushed += 1
+                    # `if a: return .. elif b: return ..` -- the arm that falls through may itself end with an `if` that leaves
+                    # on one side: what follows runs only when that exit condition is false too (elif chains of early returns)
+                    arm = s.orelse if t_term else s.body
+                    while arm and isinstance(arm[-1], ast.If) and id(arm[-1]) in self._if_tests:
+                        inner = arm[-1]
+                        i_t, i_f = _terminates(inner.body), (_terminates(inner.orelse) if inner.orelse else False)
+                        if i_t == i_f:
+                            break
+                        self.guards.append((self._if_tests[id(inner)], not i_t))
+                        pushed += 1
+                        arm = inner.orelse if i_t else inner.body
                 elif not t_term and not f_term and not self.keep_arms:
                     ec = self._exit_cond([s])
                     if ec is not None:
@@ -1547,7 +1558,7 @@ def simp(v):
         # getattr(x, "name") is x.name
         if fn == "getattr" and len(args) == 2 and args[1][0] == "const" and isinstance(args[1][1], str) and args[1][1].isidentifier():
             return ("attr", args[0], args[1][1])
-    # map(f, S) / filter(p, S) with f, p a lambda (or a nested one-return def), operator.attrgetter("a") / itemgetter(i):
+    # map(f, S) / filter(p, S) with f, p a lambda (or a nested one-return def), operator.attrgetter("a") / itemgetter(i) / methodcaller("m"):
     # the generator expressions (f(x) for x in S) / (x for x in S if p(x)) they are equal to
     if k == "call" and v[1] in (("global", "map"), ("global", "filter")) and len(v[2]) == 2 and not v[3]:
         f, S = v[2]
@@ -1563,6 +1574,11 @@ def simp(v):
                 body = ("attr", bv, arg[1])
             elif which == "itemgetter" and arg[0] == "const":
                 body = simp(("sub", bv, arg))
+        elif (f[0] == "call" and f[1] == ("global", "methodcaller") and f[2]) or (f[0] == "meth" and f[1] == ("global", "operator") and f[2] == "methodcaller" and f[3]):
+            # operator.methodcaller("m", *args, **kw)(x) is x.m(*args, **kw)
+            margs, mkws = (f[2], f[3]) if f[0] == "call" else (f[3], f[4])
+            if margs[0][0] == "const" and isinstance(margs[0][1], str) and margs[0][1].isidentifier():
+                body = ("meth", bv, margs[0][1], tuple(margs[1:]), tuple(mkws))
         if body is not None:
             if v[1][1] == "map":
                 return ("comp", "gen", body, ((bv, S, ()),))
